@@ -296,10 +296,17 @@ def pretty_ordereddict(d, ctx):
 
 @register_pretty(Counter)
 def pretty_counter(counter, ctx):
+    try:
+        items = counter.most_common()
+    except TypeError:
+        # Counts that cannot be ordered: keep insertion order,
+        # as Counter.__repr__ does.
+        items = list(counter.items())
+
     return pretty_call_alt(
         ctx,
         type(counter),
-        args=(dict(counter.most_common()), ),
+        args=(dict(items), ),
     )
 
 
